@@ -383,6 +383,14 @@ func ruleC02OnePerRow(c *Ctx) {
 			// exec: it is passed through as it is; projecting it again would apply the select list twice
 			passThrough := appended != nil && appended.Op == "varargs" && len(appended.Args) == 1 && elemOfLoop(appended.Args[0], lp) &&
 				!appended.Args[0].Contains(func(x *Term) bool { return x.Op == "call" && c.P.Func(modPath, strings.TrimPrefix(x.Name, "")) != nil })
+			if !passThrough && appended != nil && appended.Op == "varargs" && len(appended.Args) == 1 && isFreshSliceTerm(appended.Args[0]) {
+				// a nil inner result (no row survived) replaced by an empty array: the same value as far as rows go
+				for k, v := range p.Asg {
+					if x, isN := isNilTest(p.KeyTerm[k]); isN && isTrueC(v) && elemOfLoop(x, lp) {
+						passThrough = true
+					}
+				}
+			}
 			if recCall != nil || projCall != nil {
 				why = append(why, "the []any arm projects the rows of an inner result again (the select list is applied twice: aliases and computed columns become NULL)")
 			} else if !passThrough {
